@@ -26,6 +26,7 @@ package table
 //@   assert[key-hash] before call append#1 : arg1[0] == ret(Hash#1)
 //@   assert[hash-of-userkey] before call Hash#1 : arg0 == ret(ParseKey#1)
 //@   assert[userkey-of-key] before call ParseKey#1 : arg0 == key
+//@   assert[every-key-hashed] before return : called(append#1) && called(Hash#1)
 //@   note C19: light mode: only the hash appended to keyHashes is checked here; block layout is C18
 
 // The filter is built from all collected hashes.
